@@ -1,8 +1,11 @@
 """C09 -- task graphs are closed, acyclic, unambiguous and free of planner objects."""
 import random
 
+import itertools
+
 import common
 import graphs
+import c09_groupby
 from e2e import try_, STAGES
 
 
@@ -121,25 +124,36 @@ def run(run):
     ]
     run.rule = ("every graph of generated programs (l1-l3 profiles) x {unoptimized, 5 optimizer stages} + special sources/imports (persist, from_delayed, legacy, partition-filtered, fused-nested): "
                 "exported (keys, dependencies, candidate order, outputs) and certified by the verified wf_check; layers compared pairwise for conflicting keys; task tuples scanned for planner objects; "
-                "pickled under dask-expr-no-serialize; non-trivial = graph with >= 4 keys")
+                "pickled under dask-expr-no-serialize; non-trivial = graph with >= 4 keys; "
+                "groupby family (c09_groupby.py): receiver x grouping-key kind (labels / Series expressions / mixtures) x every reduction, agg spec "
+                "(decomposable, 'median', mixed, custom) and non-reducing route x split_out / split_every / shuffle_method / sort / dropna / observed x "
+                "partition counts x missing values, and pairs of groupbys over one source, at {unoptimized, fuse off, fuse on} (+ 5 stages in the thorough tier); "
+                "all graphs additionally scanned through partials / sets / closures and pickled by value (cloudpickle) under dask-expr-no-serialize")
     run.proofs("PropC09.v")
     quick = run.tier == "quick"
     m = common.Model()
     reqs, tags = [], []
     n = 0
-    for tag, e in plans(run, rt, quick):
+    for item in itertools.chain(plans(run, rt, quick), c09_groupby.plans(run, rt, quick)):
+        tag, e = item[0], item[1]
+        case = dict(item[2], tag=tag) if len(item) > 2 else {"kind": "graph", "tag": tag}      # family cases: parameters to rebuild the plan
         info = try_(lambda: graphs.analyse(e))
         if info[0] == "raise":
-            run.violation("graph materialization fails: %s [%s]" % (info[1], tag), {"kind": "graph", "tag": tag})
+            run.count(("graph", tag))
+            run.violation("graph materialization fails: %s [%s]" % (info[1], tag), case)
             continue
         info = info[1]
         n += 1
         run.count(("graph", tag), nontrivial=info["nkeys"] >= 4)
         for p in info["problems"]:
-            run.violation("%s [%s]" % (p, tag), {"kind": "graph", "tag": tag, "problem": p})
+            run.violation("%s [%s]" % (p, tag), dict(case, problem=p))
         ser = graphs.serializable(info["graph"])
         if ser:
-            run.violation("graph cannot be serialized without serializing an expression: %s [%s]" % (ser, tag), {"kind": "graph", "tag": tag})
+            run.violation("graph cannot be serialized without serializing an expression: %s [%s]" % (ser, tag), case)
+        if not info["problems"] and not ser:
+            # planner objects behind partials / sets / closures / dict keys; serialization by value
+            for p in c09_groupby.deep_problems(info["graph"]):
+                run.violation("%s [%s]" % (p, tag), dict(case, problem=p))
         reqs.append("(wf_check %s)" % info["export"])
         tags.append((tag, info["nkeys"], info["nedges"]))
         if n == 5:
@@ -151,3 +165,29 @@ def run(run):
             bad += 1
             run.violation("verified wf_check rejects the graph (not closed / cyclic / duplicate key / undefined output) [%s]" % tag, {"kind": "wf_check", "tag": tag})
     run.section("graphs", checked=n, certified_by_wf_check=len(ans) - bad, total_keys=sum(t[1] for t in tags), total_edges=sum(t[2] for t in tags))
+
+
+def replay(path):
+    """./check C09 --replay file: re-examines the graph of a groupby-family case (the other kinds of cases are identified by their tag only)."""
+    import json
+    import rt
+    import e2e
+    case = json.load(open(path)).get("case") or {}
+    if case.get("kind") not in ("groupby-family", "groupby-family-pair"):
+        print("C09 replay: only groupby-family cases can be rebuilt from the replay file; this one is identified by its tag: %s" % case.get("tag"))
+        return 2
+    coll = c09_groupby.build(case, rt.dx)
+    st = case.get("stage", "unoptimized")
+    e = (coll.expr.lower_completely() if st == "unoptimized" else coll.optimize(fuse=(st == "fuse=True")).expr if st.startswith("fuse=")
+         else e2e.stage_expr(coll.expr, st))
+    info = graphs.analyse(e)
+    problems = list(info["problems"])
+    ser = graphs.serializable(info["graph"])
+    if ser:
+        problems.append("graph cannot be serialized without serializing an expression: %s" % ser)
+    problems += c09_groupby.deep_problems(info["graph"])
+    for p in problems:
+        print("VIOLATION property=C09 %s [%s]" % (p, case.get("tag")))
+    if not problems:
+        print("C09 replay ok: %d keys, no problem [%s]" % (info["nkeys"], case.get("tag")))
+    return 1 if problems else 0
